@@ -408,6 +408,11 @@ class SymInterp(Interp):
             return vals[0]
         if all(v.is_const() for v in vals):
             return rat((max if name == "max" else min)(v.const() for v in vals))
+        # an extremum that the declared signs decide: v0 with (w - v0) >= 0 for every other w (min) / <= 0 (max)
+        for v0 in vals:
+            good = ("pos", "nonneg", "zero") if name == "min" else ("neg", "nonpos", "zero")
+            if all(w is v0 or (w - v0).is_zero() or (w - v0).sign() in good for w in vals):
+                return v0
         return fsym(name, *sorted(vals, key=lambda x: x.canon()))
 
     # ------------------------------------------------------------------ numpy over symbolic arrays
